@@ -9,5 +9,5 @@ CONSTANTS
   Alphabet <- MCAlphabet
 VIEW View
 INVARIANTS TypeOK C03_ObserverAgrees C03_RcptLimit C04_Enhanced C08_LogoutOnce C08_AllLoggedOutAtClose C19_ErrFlood
-PROPERTIES C03_Order C03_OutOfOrder C03_TxnEnd C04_ReplyCount C07_PositiveOnlyAfterEOF C08_NothingAfterClose C08_NoCallbackOnDeadSession C10_StartTLS C10_OnlyWhenAvailable C09_MechOnlyWhenAllowed C09_AtMostOnce C09_FailLeavesUnauth C09_ErasedByStartTLS
+PROPERTIES C03_Order C03_OutOfOrder C03_TxnEnd C04_ReplyCount C07_PositiveOnlyAfterEOF C08_NothingAfterClose C08_NoCallbackOnDeadSession C10_StartTLS C10_OnlyWhenAvailable C09_MechOnlyWhenAllowed C09_AtMostOnce C09_FailLeavesUnauth C09_ErasedByStartTLS C09_FailedUpgradeChangesNothing
 CHECK_DEADLOCK FALSE
